@@ -16,7 +16,8 @@ func init() {
 		decided: "R1 the hop-by-hop table contains the RFC 7230 set and both directions delete the Connection-named tokens before, and the table entries in, a loop over that same table; " +
 			"R2 the client's header map is never mutated (every header mutation of the outgoing request follows its replacement by a fresh map) and, inside the retry loop, URL and header of the outgoing request are re-derived from pristine snapshots in every iteration before anything that mutates them; " +
 			"R3 the buffered body is rewound in every iteration before the forward call, and buffering is decided by exactly {more than one host, non-zero try duration}; " +
-			"R4 the backend status is written unmodified, the Trailer announcement precedes WriteHeader, the body copy precedes the trailer copy.",
+			"R4 the backend status is written unmodified, the Trailer announcement precedes WriteHeader, the body copy precedes the trailer copy; " +
+			"R5 X-Forwarded-For is set whenever the client address is known, to that address preceded by the prior values (joined with \", \") exactly when the header was present.",
 		notDecided: "byte-for-byte equality of bodies; path joining arithmetic (singleJoiningSlash); header multiset equality — runtime relations.",
 	})
 }
@@ -29,6 +30,7 @@ func runC04(r *Report, p *Program) {
 	c04R2(h)
 	c04R3(h)
 	c04R4(h)
+	c04R5(h)
 }
 
 // stringTable reads a package-level []string composite literal (constants resolved by go/types).
